@@ -777,7 +777,9 @@ CLASSES = list(TOKENS)
 # values of the claimed domain: braces, quotes, backslash, @ , = digits (no # % & _ ~, white-space-normalised)
 VALUES = ['', 'word', 'two words', '{Braced} text', 'a {"} b', 'q "x" q', '1993', '{\\"o}', 'a, b = c @ d', 'back\\slash',
           '(paren) [x]', 'x < y > z', "it's", '– €', '{{nested} {deep}}', '"', '\\', 'a=b,c', '@k{x}', '{a "b" c}',
-          '{a{b{c{d}e}f}g} {{{{{{deep}}}}}}']
+          '{a{b{c{d}e}f}g} {{{{{{deep}}}}}}',
+          # the brace-less accent spelling: a backslash in front of a brace-level-0 double quote is still a double quote for the reader
+          'G\\"odel', '\\"Uber S\\"atze', 'x\\" {"} y', '\\"']
 # outside the claimed domain (correspondence only)
 VALUES_OUT = ['100% x', 'a_b', 'R&D', 'x~y', '#1', ' lead', 'trail ', 'two  spaces', 'a\nb', 'tab\there', '{open', 'close}', '}{',
               '{}}{}', 'a\x0bb', 'a\xa0b', '%', 'a%b%c', '~', 'x~ y', '~~', '{' * 101 + 'x' + '}' * 101, '{' * 100 + 'x' + '}' * 100]
